@@ -32,7 +32,7 @@ ASSUMPTIONS = [
     "model (they are implementation vocabulary)",
     "single process (no process group)",
 ]
-BUDGET_S = {"quick": 300, "thorough": 2700}
+BUDGET_S = {"quick": 900, "thorough": 3000}
 NSHARDS = 48
 
 
